@@ -772,6 +772,8 @@ class PE:
 
     def _assume(self, node, env, exc):
         if self.assume is not None:
+            global CURRENT_PE
+            CURRENT_PE = self          # shared assumption hooks judge the operands' values with this evaluator
             r = self.assume(" ".join(ast.unparse(node).split()), env)
             if r is not None:
                 return r
@@ -1882,6 +1884,9 @@ def _enum_mixin(src: Source, cls: Class):
     return any(_enum_mixin(src, b) for b in src.class_bases(cls))
 
 
+CURRENT_PE = None
+
+
 def decide_on_values(pe, text, env, rep=None, generic=True):
     """Truth value of a condition the evaluator could not decide, judged on the VALUES of its operands rather than on the names the
     source gives them: every name / attribute chain is evaluated in `env`; a symbolic value stands for the representative
@@ -1910,6 +1915,14 @@ def decide_on_values(pe, text, env, rep=None, generic=True):
             return v            # symbolic, no representative
         raise Unknown()
 
+    def callee(n):
+        """qualified name of the called library function, through the module's import table (any alias of numpy)"""
+        try:
+            v = pe.eval(n.func, env)
+        except Exception:
+            return None
+        return getattr(v, "qname", None)
+
     def val(n):
         if isinstance(n, ast.Constant) and isinstance(n.value, (int, float)) and not isinstance(n.value, bool):
             return Fraction(n.value)
@@ -1932,7 +1945,7 @@ def decide_on_values(pe, text, env, rep=None, generic=True):
             if isinstance(a, Node):
                 raise Unknown()
             return -a
-        if isinstance(n, ast.Call) and ast.unparse(n.func) in ("np.linalg.norm", "numpy.linalg.norm", "la.norm") and generic:
+        if isinstance(n, ast.Call) and callee(n) == "numpy.linalg.norm" and generic:
             return GENERIC_MAGNITUDE
         if isinstance(n, ast.BinOp) and isinstance(n.op, (ast.Mult, ast.Div, ast.Pow)):
             a, b = val(n.left), val(n.right)
@@ -1947,8 +1960,18 @@ def decide_on_values(pe, text, env, rep=None, generic=True):
             if b.denominator == 1 and abs(b) < 20:
                 return a ** int(b)
             raise Unknown()
-        if isinstance(n, ast.Call) and ast.unparse(n.func) in ("np.abs", "abs", "np.fabs", "numpy.abs") and len(n.args) == 1:
-            a = val(n.args[0])
+        if isinstance(n, ast.Call) and callee(n) in ("numpy.abs", "numpy.absolute", "builtins.abs", "numpy.fabs") and len(n.args) == 1:
+            try:
+                a = val(n.args[0])
+            except Unknown:
+                if not generic:
+                    raise
+                try:
+                    a = pe.eval(n.args[0], env)
+                except Exception:
+                    raise Unknown()
+                if not (isinstance(a, Node) and dag.as_const(a) is None):
+                    raise Unknown()
             if isinstance(a, Node):
                 if generic:
                     return GENERIC_MAGNITUDE   # |generic symbolic value|: positive and not within any tolerance of zero
@@ -1973,7 +1996,7 @@ def decide_on_values(pe, text, env, rep=None, generic=True):
             return all(vs) if isinstance(n.op, ast.And) else any(vs)
         if isinstance(n, ast.UnaryOp) and isinstance(n.op, ast.Not):
             return not truth(n.operand)
-        if isinstance(n, ast.Call) and ast.unparse(n.func) in ("np.isclose", "numpy.isclose", "math.isclose") and len(n.args) >= 2:
+        if isinstance(n, ast.Call) and callee(n) in ("numpy.isclose", "math.isclose") and len(n.args) >= 2:
             return same(val(n.args[0]), val(n.args[1]))
         if isinstance(n, ast.Compare) and len(n.ops) == 1:
             a, b = val(n.left), val(n.comparators[0])
